@@ -141,7 +141,10 @@ class PropertyRun:
         worker that explores AND discharges its own obligations; records come back here."""
         import multiprocessing as mp
         from concurrent.futures import ProcessPoolExecutor
-        jobs = [(self.pid, self.tier, self.seed, f.__module__, f.__name__, a) for f, a in tasks]
+        # a task may be given as (function, args, 'support'): its contracts are lemmas this property's argument RESTS ON but that
+        # are stronger than the property needs (e.g. the exact rotation formula for frame independence).  Refuting one of them breaks
+        # the proof chain - UNDECIDED for this property - but is not by itself a violation of this property.
+        jobs = [(self.pid, self.tier, self.seed, t[0].__module__, t[0].__name__, t[1], len(t) > 2 and t[2] == 'support') for t in tasks]
         if not jobs:
             return
         with ProcessPoolExecutor(max_workers=min(workers, len(jobs)), mp_context=mp.get_context('fork')) as pool:
@@ -389,14 +392,25 @@ def replay_file(path):
 
 
 def _sub_run(job):
-    pid, tier, seed, modname, fname, args = job
+    pid, tier, seed, modname, fname, args, support = job
     import importlib
     from .loader import Repo
     sub = PropertyRun(pid, tier, seed)
     try:
         mod = importlib.import_module(modname)
         getattr(mod, fname)(sub, Repo(), *args)
-        return sub.export(30000 if tier == 'quick' else 120000)
+        res = sub.export(30000 if tier == 'quick' else 120000)
+        if support:
+            for rec in res['records']:
+                if rec.get('kind') == 'top':
+                    rec['kind'] = 'aux'
+                    rec['name'] = '(supporting lemma) ' + rec['name']
+                # a replay of a supporting lemma demonstrates a violation of THAT lemma, not of this property
+                rec['script'] = None
+            for g in res['grounds']:
+                if g.get('kind') == 'top':
+                    g['kind'] = 'aux'
+        return res
     except Exception as e:
         import traceback
         sub.undecided.append({'obligation': '%s%r' % (fname, args), 'reason': 'worker crashed: %s' % traceback.format_exc()[-600:]})
